@@ -90,6 +90,15 @@ func c02Msg(c *ctx, m *ref.Msg) {
 		c.Violation("C02/msg/constructor-refused-valid", "valid message refused: "+o.String()+" "+clipS(ref.PrintMsg(m)), c02Case{Op: "msg", Msg: m})
 		return
 	}
+	// a message whose session id is taken away again is not complete any more
+	if m.Complete() && !o.Panicked {
+		var got2 []byte
+		o2 := real.Try(func() { got2 = real.BuildMsg(m).SetSessionIDAndSystemBytes(-1, m.Sys[:]).ToBytes() })
+		c.Class("msg/session-unset-again")
+		if !o2.Panicked && len(got2) != 0 {
+			c.Violation("C02/msg/partial-bytes-after-unsetting-session", fmt.Sprintf("SetSessionIDAndSystemBytes(-1, …) then ToBytes() = %x", clipB(got2)), c02Case{Op: "msg", Msg: m})
+		}
+	}
 	if !bytes.Equal(got, want) {
 		sig := "C02/msg/bytes-differ/" + why
 		c.Violation(sig, fmt.Sprintf("ToBytes()=%x reference=%x msg=%s", clipB(got), clipB(want), clipS(ref.PrintMsg(m))), c02Case{Op: "msg", Msg: m})
@@ -336,7 +345,20 @@ func runC02(c *ctx) {
 		}
 		c02Msg(c, g.Msg(it, i%3 == 0))
 	})
-	c.Required = []string{"msg/complete", "msg/+vars", "msg/+optW", "msg/+nosession", "f4/finite-patterns", "f4round/in-range", "f4round/overflow", "lenbytes=3/A", "lenbytes=2/L"}
+	// messages whose length field needs its fourth byte (text of 2^24 bytes or more): one giant item, and many large ones
+	{
+		big := &ref.Item{Kind: ref.A, Str: bytes.Repeat([]byte("q"), ref.MaxBytes-5)}
+		c.Class("msg/length>=2^24")
+		c02Msg(c, &ref.Msg{Stream: 5, Function: 1, W: 1, Dir: "H->E", Item: big, Session: 258, Sys: [4]byte{1, 2, 3, 4}})
+		chunk := &ref.Item{Kind: ref.B, Slots: make([]ref.Slot, 1<<20)}
+		many := &ref.Item{Kind: ref.L}
+		for i := 0; i < 17; i++ {
+			many.Children = append(many.Children, chunk)
+		}
+		c.Class("msg/length>=2^24")
+		c02Msg(c, &ref.Msg{Stream: 6, Function: 11, W: 0, Dir: "H<-E", Item: many, Session: 1, Sys: [4]byte{0, 0, 0, 9}})
+	}
+	c.Required = []string{"msg/length>=2^24", "msg/session-unset-again", "msg/complete", "msg/+vars", "msg/+optW", "msg/+nosession", "f4/finite-patterns", "f4round/in-range", "f4round/overflow", "lenbytes=3/A", "lenbytes=2/L"}
 }
 
 func replayC02(c *ctx, raw json.RawMessage) {
